@@ -117,6 +117,7 @@ type Shared struct {
 	mu       sync.Mutex
 	funcs    map[string]bool // functions executed (outside harness/rt)
 	redirect map[string]*ssa.Function
+	redirSeen map[string]bool
 	buildMu  sync.Mutex
 }
 
